@@ -129,8 +129,8 @@ def sc3_nested_find(elem, find_ens, find_label=None, written_for='x', min_count=
             lp, lb = _closure(text, toks, match, fm_open)
             if re.sub(r'\s+', '', lb) != lp.strip() + '.iter()':
                 raise LostAnchor('%s: SC3 flat_map closure is not `|l| l.iter()`: %r' % (key, lb[:60]))
-            if not re.match(r'^[0-9]+$', skip):
-                raise LostAnchor('%s: SC3 skip count is not a literal: %r' % (key, skip))
+            if not re.match(r'^[A-Za-z0-9_]+(\s*\+\s*[A-Za-z0-9_]+)*$', skip):
+                raise LostAnchor('%s: SC3 skip count is not a literal, a named constant or a sum of those: %r' % (key, skip))
             rs = _receiver_start(toks, i)
             recv = re.sub(r'\s+', '', text[toks[rs].start:toks[i].start])
             param, body = _closure(text, toks, match, fopen)
